@@ -121,8 +121,11 @@ def run(ctx):
                     d = ind.same_steps(steps_, s2, zero_loose=False)
                     if d is not None or p.fields != q.fields or p.valid != q.valid:
                         ctx.fail_input(meta, "dynamically dispatched configuration/instance differs from the static one (first differing step %s)" % d, impl[i])
-                    if not tail or tail[-1] != 1:
+                    if len(tail) < 2 or tail[-2] != 1:
                         ctx.fail_input(meta, "dyn instance reports another size()/name() than its configuration", impl[i])
+                    if len(tail) < 2 or tail[-1] != 1:
+                        ctx.fail_input(meta, "IndicatorConfigDyn::over differs from IndicatorConfig::over on the same %d candles "
+                                             "(number of results or a result)" % (len(c.cs) + 1), impl[i])
                 elif q is not None and q.init != p.init:
                     ctx.fail_input(meta, "dyn init outcome %s differs from static %s" % (p.init, q.init), impl[i])
         elif c.kind.startswith("set-") and c.kind != "set-baseline":
